@@ -72,6 +72,8 @@ pub struct Knobs {
     pub wide_literals: bool,
     /// output signals may be 63 or 64 bits wide
     pub wide_signals: bool,
+    /// declarations may call random()
+    pub random_in_declares: bool,
 }
 
 impl Knobs {
@@ -101,6 +103,7 @@ impl Knobs {
             p_device: 0.0,
             wide_literals: false,
             wide_signals: false,
+            random_in_declares: false,
         }
     }
     /// flat-ish programs dominated by data rows
@@ -431,7 +434,9 @@ impl Gen {
             // variables are deliberately allowed
             let saved = self.k.p_device;
             self.k.p_device = 0.8;
-            let allow_random = std::mem::replace(&mut self.k.allow_random, false);
+            // (`random` inside a declaration draws from the run's generator like any other: only the C17 workload does that)
+            let keep = self.k.random_in_declares && self.k.allow_random;
+            let allow_random = std::mem::replace(&mut self.k.allow_random, keep);
             let e = self.expr_in(2, Some(plan));
             self.k.p_device = saved;
             self.k.allow_random = allow_random;
@@ -610,7 +615,10 @@ pub fn make_policy(spec: PolicySpec) -> Policy {
             })
             .collect();
         if let Some((at, f)) = spec.fault {
-            if at == idx && !list.is_empty() {
+            if at == idx && list.is_empty() && f == Fault::Add {
+                // a driver that reported nothing so far starts reporting a signal
+                list.push((if spec.widths.is_empty() { spec.foreign } else { 0 }, Val::N(1)));
+            } else if at == idx && !list.is_empty() {
                 let h = mix(spec.seed, 0xFA17, idx as u64) as usize;
                 let p = h % list.len();
                 match f {
